@@ -1,6 +1,7 @@
 // LD_PRELOAD interposer: counts the mutating file-system calls made under SHIM_PREFIX once
 // SHIM_ARMED is set, and at index SHIM_CUT kills the process (before performing the call), or at
 // index SHIM_FAIL makes that one call fail with EIO. SHIM_LOG=1 prints every counted call.
+// With SHIM_READS=1 the opens for reading of state.json / patches_state.json / dlc.vmcode are counted (and faulted) as well.
 #define _GNU_SOURCE
 #include <dlfcn.h>
 #include <errno.h>
@@ -31,6 +32,14 @@ static int hit(const char *what, const char *path) {
   return 1;
 }
 
+// reads that are faulted too (SHIM_READS=1): the two state files and the patch artifacts
+static int is_data_file(const char *path) {
+  if (!path) return 0;
+  const char *b = strrchr(path, '/');
+  b = b ? b + 1 : path;
+  return strcmp(b, "state.json") == 0 || strcmp(b, "patches_state.json") == 0 || strcmp(b, "dlc.vmcode") == 0;
+}
+
 static const char *fullpath(int dirfd, const char *p, char *buf) {
   if (!p || p[0] == '/' || dirfd == AT_FDCWD) return p;
   char lnk[64];
@@ -51,6 +60,8 @@ static const char *fullpath(int dirfd, const char *p, char *buf) {
   char buf[4200];                                                                     \
   int t = 0;                                                                          \
   if ((flags & O_CREAT) || (flags & O_TRUNC)) t = hit("create-trunc", HASDIR ? fullpath(dirfd, path, buf) : path); \
+  else if (getenv("SHIM_READS") && (flags & O_ACCMODE) == O_RDONLY && !(flags & O_DIRECTORY) && is_data_file(path)) { \
+    t = hit("read-open", HASDIR ? fullpath(dirfd, path, buf) : path); if (t == 1) t = 0; } \
   if (t == 2) { errno = EIO; return -1; }
 
 int openat(int dirfd, const char *path, int flags, ...) {
